@@ -297,6 +297,18 @@ def gen_set(ctx, maxlen, heavy_ok):
     rng = ctx.rng
     kind = rng.choice(["prefix", "suffix"])
     indels = rng.random() < 0.5
+    if rng.random() < 0.04:
+        # absolute error counts on lengths where the double k/n times n falls just below k (gens.FLOAT_CORNERS): the adapters themselves allow k-1
+        # errors over their full length, and so must the index
+        k, L = rng.choice([(1, 49), (2, 49), (3, 47)] if not indels else [(1, 49), (1, 49), (2, 49)])
+        base = "".join(rng.choice("ACGT") for _ in range(L))
+        seqs = [base]
+        while len(seqs) < rng.randint(2, 3):
+            s = near_duplicate(rng, base, False) if rng.random() < 0.5 else "".join(rng.choice("ACGT") for _ in range(L))
+            s = (s + base)[:L]
+            if s not in seqs:
+                seqs.append(s)
+        return kind, indels, [(s, float(k)) for s in seqs]
     n = rng.randint(2, 8)
     mode = rng.random()
     equal = mode < 0.45
